@@ -52,7 +52,9 @@ def atom_rows(n, res):
         elif res == 'one':
             rows.append((name, 'MOL', 1))
         elif res == 'two':
-            rows.append((name, 'MOL', 1 if i < (n + 1) // 2 else 2))
+            # (names that LOOK like numbers are still names: atom '18', '010', '1E2', residue '7')
+            name2 = (name, '18', '010', '1E2')[i % 4]
+            rows.append((name2, 'MOL' if i < (n + 1) // 2 else '7', 1 if i < (n + 1) // 2 else 2))
         else:
             b = i * 3 // n
             rows.append((name, ('ALA', 'GLY', 'SER')[b], b + 4))
@@ -135,7 +137,8 @@ def render(n, edges, assign, num='seq', res='one', order=(0, 1, 2), noise='none'
     out.append(head('moleculetype'))
     if noise == 'comments':
         out.append('; name  nrexcl')
-    out.append(content(['MOLX', '1'], 'moleculetype'))
+    # the molecule name: any blank-free word (punctuation, a leading digit, a trailing sign are all legal)
+    out.append(content([{'seq': 'MOLX', 'gaps': 'C4-mim.2+', 'offset': '2-propanol'}.get(num, 'MOLX'), '1'], 'moleculetype'))
     if noise == 'comments':
         out.append('')
     out.append(head('atoms'))
@@ -564,6 +567,51 @@ def examine(text, direct=False):
             out.append(('copy/original-changed-through-copy', 'atoms changed: %s' % changed[:8]))
     except Exception as exc:
         out.append(('copy/error/' + type(exc).__name__, repr(exc)))
+    # --- connectivity asked again for the SAME list after its graph was changed through the atoms' own API: the two
+    #     fragments of a disconnected graph are joined (then it is connected); a connected tree loses a leaf bond
+    try:
+        if n >= 2 and n <= 8:
+            lst = list(mt)
+            first = bool(are_connected(lst))
+            if not want_conn:
+                comp0 = {0}
+                grew = True
+                while grew:
+                    grew = False
+                    for i in list(comp0):
+                        for j in lst[i].bonds:
+                            if j not in comp0:
+                                comp0.add(j)
+                                grew = True
+                comps, seen = [], set()
+                for i0 in range(n):
+                    if i0 in seen:
+                        continue
+                    comp, todo = {i0}, [i0]
+                    while todo:
+                        i = todo.pop()
+                        for j in lst[i].bonds:
+                            if j not in comp:
+                                comp.add(j)
+                                todo.append(j)
+                    seen |= comp
+                    comps.append(min(comp))
+                for a, b in zip(comps, comps[1:]):
+                    lst[a].connect(lst[b])
+                second, want2 = bool(are_connected(lst)), True
+            else:
+                leaf = next((i for i in range(n) if len(lst[i].bonds) == 1), None)
+                second = want2 = None
+                if leaf is not None:
+                    other = next(iter(lst[leaf].bonds))
+                    lst[leaf].bonds.discard(other)
+                    lst[other].bonds.discard(leaf)
+                    second, want2 = bool(are_connected(lst)), False
+            if first == want_conn and second is not None and second != want2:
+                out.append(('are_connected/stale-answer-after-the-graph-of-the-same-list-changed',
+                            'first %r, after the change %r (union-find says %r)' % (first, second, want2)))
+    except Exception as exc:
+        out.append(('are_connected/error/' + type(exc).__name__, repr(exc)[:300]))
     return out, outcome
 
 
